@@ -608,7 +608,8 @@ class Model:
                     aff_out = aff_out.affine
                 ew_constr = CvxConstr(aff_in.model, aff_in, aff_out,
                                       constr.multiplier, constr.xtype,
-                                      params=constr.params)
+                                      params=constr.params,
+                                      sum_axis=constr.sum_axis)
             elif isinstance(constr, DecExpConstr):
                 if isinstance(drule, RoAffine):
                     drule_affine = drule.affine
